@@ -241,6 +241,27 @@ def r2_config(ctx, prog, mx):
             r.violation(name, site, 'the operation starts on a path that never tests %s->mechanism against the advertised list: a mechanism removed by slots.mechanisms is still accepted here' % pm, file=f['file'], line=bad[0]['line'], path=bad[0]['path'])
         else:
             r.ok(name, site, '%d states' % len(hits), file=f['file'], line=hits[0]['line'])
+    # the query entry point takes a mechanism too: it answers CKR_OK only for a mechanism of the configured list
+    f = prog.fn('SoftHSM::C_GetMechanismInfo')
+    ctx.analysed(f)
+    pm = param_name(f, 1)
+
+    def rtrig(s_, st):
+        return 'answer' if ret_class(s_, st) == 'OK' else None
+    sf = SiteFacts(f, prog, return_trigger=rtrig, track_facts=r'supportedMechanisms')
+    sf.CAP = 48
+    sf.go()
+    r.paths += sf.paths_returned
+    hits = sf.sites.get('answer', [])
+    site = 'configured list consulted'
+    bad = [h for h in hits if not any('supportedMechanisms' in a and re.search(r'\b%s\b' % re.escape(pm), a) for a, t in h['facts'])]
+    if not hits:
+        r.undecided(f['qname'], site, 'no path answers CKR_OK', file=f['file'], line=f['line'])
+    elif bad:
+        r.violation(f['qname'], site, 'C_GetMechanismInfo answers CKR_OK on a path that never tests %s against the configured mechanism list: a mechanism that slots.mechanisms removed is still described as available' % pm,
+                    file=f['file'], line=bad[0]['line'], path=bad[0]['path'])
+    else:
+        r.ok(f['qname'], site, '%d answering paths' % len(hits), file=f['file'], line=f['line'])
 
 
 def r3_tables(ctx, prog, mx):
@@ -433,6 +454,40 @@ def r6_reauthenticate(ctx, prog, rule_id='C07.R6'):
                 r.ok(f['qname'], site, '%d paths' % len(o.outcomes), file=f['file'], line=f['line'])
 
 
+def r7_second_keys(ctx, prog):
+    """A key that reaches an operation through a mechanism parameter (the second key of CKM_CONCATENATE_BASE_AND_KEY) is key material of that operation like the key named in the
+    call: its value is read only after isMechanismPermitted() succeeded for *that* object - the entry point cannot have checked it, it never sees the handle."""
+    r = ctx.rule('C07.R7', 'a key taken from a mechanism parameter is checked against its CKA_ALLOWED_MECHANISMS / the configured list before its value is read', floor=1, engine='E2 dominance')
+    from rules import common_handles as ch
+    cka_value = macro(prog, 'CKA_VALUE')
+    n = 0
+    for f in sorted(prog.functions.values(), key=lambda f: (f['file'], f['line'])):
+        if f.get('class') != 'SoftHSM' or f['body'] is None or not handle_objects(f) or unanalysable(f):
+            continue
+        objs = [o for o in (ch.analyse(prog, f) or []) if 'mechparam' in o['kinds'] or 'other' in o['kinds']]
+        for o in objs:
+            var = o['var']
+
+            def trig(e, st):
+                if e.get('k') == 'Call' and short(e.get('callee')) == 'getByteStringValue' and e.get('recv') is not None and canon(e['recv']) == var and e.get('args') and tables.const_eval(e['args'][0]) == cka_value:
+                    return ('read', e['l'])
+                return None
+            sf = SiteFacts(f, prog, trigger=trig, track_facts=r'isMechanismPermitted').go()
+            r.paths += sf.paths_returned
+            for (_, line), hits in sorted(sf.sites.items()):
+                n += 1
+                ctx.analysed(f)
+                site = 'value of %s read@%d' % (var, line)
+                bad = [h for h in hits if not any(t and re.match(r'isMechanismPermitted(@\d+)?\((this,)?%s,' % re.escape(var), a) for a, t in h['facts'])]
+                if bad:
+                    r.violation(f['qname'], site, 'the value of %s, a key named by the mechanism parameter, is read on a path where isMechanismPermitted(%s, ...) has not succeeded: a key restricted to other mechanisms (CKA_ALLOWED_MECHANISMS) is fed into this derivation' % (var, var),
+                                file=f['file'], line=line, path=bad[0]['path'])
+                else:
+                    r.ok(f['qname'], site, 'after isMechanismPermitted(%s, ...)' % var, file=f['file'], line=line)
+    if n == 0:
+        r.undecided('SoftHSM', 'second keys', 'no key taken from a mechanism parameter was found (CKM_CONCATENATE_BASE_AND_KEY gone?)', file='', line=0)
+
+
 def run(ctx):
     prog = ctx.prog('ossl-file')
     mx = matrix(ctx, prog)
@@ -442,9 +497,12 @@ def run(ctx):
     r4_reauth(ctx, prog)
     r5_list_effects(ctx, prog)
     r6_reauthenticate(ctx, prog)
+    r7_second_keys(ctx, prog)
 
 
 MUTANTS = [
+    dict(name='getmechanisminfo-ignores-configuration', rule='C07.R2', file='src/lib/SoftHSM.cpp', after='CK_RV SoftHSM::C_GetMechanismInfo(',
+         old='\tif (std::find(supportedMechanisms.begin(), supportedMechanisms.end(), type) == supportedMechanisms.end())\n\t\treturn CKR_MECHANISM_INVALID;\n', new=''),
     dict(name='negative-list-std-remove-without-erase', rule='C07.R5', file='src/lib/SoftHSM.cpp', after='void SoftHSM::prepareSupportedMecahnisms',
          old='\t\t\t\t\tsupportedMechanisms.remove(mechanism);', new='\t\t\t\t\tstd::remove(supportedMechanisms.begin(), supportedMechanisms.end(), mechanism);'),
     dict(name='macsigninit-no-sign-flag', rule='C07.R1a', function='MacSignInit', file='src/lib/SoftHSM.cpp', after='CK_RV SoftHSM::MacSignInit(',
